@@ -2,6 +2,8 @@
 import itertools
 import json
 import random
+
+from vlib import budget
 import struct
 
 from vlib import gen, refenc
@@ -284,7 +286,7 @@ class Runner(object):
 
 def plan(tier, seed):
     n = 16
-    return [dict(part=i, nparts=n, seed=seed * 100 + i, nrand=18 if tier == 'quick' else 210, length=120 if tier == 'quick' else 200, tier=tier) for i in range(n)]
+    return [dict(part=i, nparts=n, seed=seed * 100 + i, nrand=18 if tier == 'quick' else 600, length=120 if tier == 'quick' else 300, tier=tier) for i in range(n)]
 
 
 def run_shard(sh):
@@ -305,6 +307,8 @@ def run_shard(sh):
             res['evaluations'] += 1
             res['distinct'].append('x|%s|%s' % (side, s))
     for i in range(sh['nrand']):
+        if budget.expired():
+            break
         side = ('recv', 'send', 'both')[i % 3]
         r = Runner(side, V, stats)
         seq = []
